@@ -185,6 +185,14 @@ fn squeeze(mut m: MM) -> MM {
         t.dl %= 5;
         t.dc %= 40;
     }
+    // a third of the section maps use one shared family of source names (same name at the same
+    // index in several sections, with different contents / ignore flags per section)
+    if m.json.key_perm.first().copied().unwrap_or(0) % 3 == 0 {
+        for (i, s) in m.sources.iter_mut().enumerate() {
+            *s = format!("vendor{i}.js");
+        }
+        m.root = None;
+    }
     m
 }
 
@@ -237,7 +245,7 @@ fn raw_index(depth: u32) -> BoxedStrategy<MIndex> {
     let section = (
         // line gap to the previous section (0 = same line), column
         prop_oneof![2 => Just(0u32), 3 => 1u32..4],
-        prop_oneof![2 => Just(0u32), 3 => 1u32..30],
+        prop_oneof![4 => Just(0u32), 6 => 1u32..30, 1 => proptest::sample::select(vec![255u32, 256, 65535, 65536, 65537, 70000, 131072, 1 << 20])],
         prop_oneof![4 => Just(None), 1 => Just(Some("http://h/sec.map".to_string()))],
         prop_oneof![1 => Just(None), 12 => section_map(depth).prop_map(Some)],
     );
@@ -431,6 +439,7 @@ fn check(c: &Case, obs: &mut Obs) -> Verdict {
     obs.class_if(ix.sections.iter().any(|s| matches!(s.map, Some(MAny::Hermes(_)))), "hermes-section");
     obs.class_if(ix.sections.iter().any(|s| s.map.as_ref().map(|m| m.token_count() == 0).unwrap_or(false)), "empty-section");
     obs.class_if(ix.sections.windows(2).any(|w| w[0].off.0 == w[1].off.0), "two-sections-on-one-line");
+    obs.class_if(ix.sections.iter().any(|s| s.off.1 >= 65536), "column-offset>=65536");
     obs.class_if(first_line_right, "query-right-of-offset-on-first-line");
     obs.class_if(has_unresolved(ix), "unresolved-section");
     let rich = ix.sections.iter().any(|s| {
